@@ -331,9 +331,10 @@ struct CabWorld {
             } else {
                 auto hit = holder.find(o);
                 if (hit == holder.end()) {
+                    // `o` may be anything (e.g. a free-list link read as a pointer): never dereference it here
                     fail("cabinet/foreach/visited-dead-entry",
-                         vh::fmt("visit %zu presented object #%llu which is not stored in any live entry (freed earlier or never stored)",
-                                 vno, (unsigned long long)o->serial));
+                         vh::fmt("visit %zu presented pointer %p which is not the object of any live entry (entry freed earlier, or never stored)",
+                                 vno, (void *)o));
                     return;
                 }
                 cur = hit->second; identified = true;
